@@ -54,12 +54,16 @@ Definition gstep2 (p : params2) (w : world2) (e : gstep) : option world2 :=
            Some {| chain2 := b :: chain2 w; row2 := r; sent2 := attempt p r H a :: sent2 w |}
   | GRevert a =>
       match chain2 w, sent2 w with
-      | b :: rest, _ :: srest =>
+      | b :: rest, s0 :: srest =>
           if is_form b then None
           else let r := bind (row2 w) (revert_block2 p b (elem_rev rest)) in
                Some {| chain2 := rest; row2 := r;
+                       (* the proof handed to the pool at the reverted position is a transaction over the
+                          contract's element and the chain index element of the block at the proof height:
+                          it stays valid — in the pool, or back in it if the reverted block had confirmed
+                          it — as long as that block stays, i.e. when the reverted block is above it *)
                        sent2 := match srest with
-                                | s :: t => (s || attempt p r (tip2 rest) a) :: t
+                                | s :: t => (s || (s0 && (q_ph p <? tip2 (b :: rest))%N) || attempt p r (tip2 rest) a) :: t
                                 | [] => []
                                 end |}
       | _, _ => None
@@ -265,6 +269,18 @@ Proof.
   destruct (would_broadcast2 p ch); [reflexivity|discriminate Ha].
 Qed.
 
+Lemma would_down : forall p b rest,
+  is_form b = false -> would_broadcast2 p (b :: rest) = true -> (q_ph p < tip2 (b :: rest))%N ->
+  would_broadcast2 p rest = true.
+Proof.
+  intros p b rest Hb Hw Hlt. unfold would_broadcast2 in *. rewrite formed2_cons, resolved2_cons, Hb, tip2_cons in *.
+  cbn [orb] in Hw. destruct (formed2 rest); [|discriminate Hw]. cbn [andb] in *.
+  destruct (resolved2 rest); [rewrite orb_true_r in Hw; discriminate Hw|]. cbn [negb andb].
+  destruct (q_held p); [|rewrite andb_false_r in Hw; discriminate Hw]. rewrite andb_true_r in *.
+  apply andb_true_iff in Hw. destruct Hw as [Hw1 Hw2]. apply andb_true_iff in Hw1. destruct Hw1 as [_ Hw1].
+  apply andb_true_iff. split; lia.
+Qed.
+
 Lemma gstep2_inv : forall p w e w', invg p w -> gstep2 p w e = Some w' -> invg p w'.
 Proof.
   intros p w e w' [Hok [[c [Hrow Hm]] Hfs]] Hstep. destruct e as [b a|a].
@@ -286,15 +302,18 @@ Proof.
     destruct (is_form b) eqn:Ebf; [discriminate|]. injection Hstep as <-.
     destruct (revert_block2_matches_g p rest _ b c Hok Ebf Hm) as [c' [Hrv Hm']].
     cbn [chain_okg tl] in Hok. destruct Hok as [Hok' _].
-    cbn [flags_sound tl] in Hfs. destruct Hfs as [_ Hfs'].
+    cbn [flags_sound tl] in Hfs. destruct Hfs as [[f0 [fr0 [Hfl0 Hf0]]] Hfs']. injection Hfl0 as <- <-.
     unfold invg. cbn [chain2 row2 sent2]. rewrite Hrow. cbn [bind]. rewrite Hrv.
     destruct rest as [|b2 r2].
     + cbn [flags_sound] in Hfs'. subst srest. split; [exact I|]. split; [exists c'; split; [reflexivity|exact Hm']|reflexivity].
     + cbn [flags_sound] in Hfs'. destruct Hfs' as [[f [fr [Hfl Hf]]] Hfs2]. subst srest. cbn [tl] in *.
       split; [cbn [chain_okg tl] in *; exact Hok'|]. split; [exists c'; split; [reflexivity|exact Hm']|].
       cbn [flags_sound tl]. split; [|exact Hfs2].
-      eexists _, fr. split; [reflexivity|]. intro Hor. apply orb_true_iff in Hor. destruct Hor as [Hx|Hx].
+      eexists _, fr. split; [reflexivity|]. intro Hor. apply orb_true_iff in Hor. destruct Hor as [Hx|Hx];
+        [apply orb_true_iff in Hx; destruct Hx as [Hx|Hx]|].
       * apply Hf. exact Hx.
+      * apply andb_true_iff in Hx. destruct Hx as [Hx1 Hx2].
+        apply (would_down p b (b2 :: r2) Ebf (Hf0 Hx1)). lia.
       * eapply attempt_sound; [exact Hm'|reflexivity|exact Hx].
 Qed.
 
@@ -480,9 +499,19 @@ Proof.
                         | s :: t => (s || match bind (row2 w) (revert_block2 p b (elem_rev rest)) with
                                           | Ok c => host_broadcasts2 p c (tip2 rest) | _ => false end) :: t
                         | [] => [] end |}).
-    { cbn [step2]. rewrite Ech, Es, Ebf. reflexivity. }
+    { cbn [step2]. rewrite ?Ech, ?Es, ?Ebf. reflexivity. }
     destruct (step2_inv p w _ _ Hi Hs) as [_ [[c' [Hrow' Hm']] _]]. cbn [chain2 row2] in *.
-    rewrite Hrow'. rewrite (attempt_good p _ c' Hm'). reflexivity.
+    rewrite Hrow'. rewrite (attempt_good p _ c' Hm').
+    (* the carried flag is absorbed: under Liveness2's invariant the position below is flagged already *)
+    destruct Hi as [_ [_ Hsent]]. rewrite Ech, Es in Hsent. cbn [sent_of2] in Hsent. injection Hsent as Hs0 Hsr.
+    destruct srest as [|s t]; [reflexivity|].
+    destruct rest as [|b2 r2]; [discriminate Hsr|]. cbn [sent_of2] in Hsr. injection Hsr as Hs1 Ht.
+    replace (s || s0 && (q_ph p <? tip2 (b :: b2 :: r2))%N) with s; [reflexivity|].
+    destruct s; [reflexivity|]. cbn [orb]. symmetry. apply andb_false_iff.
+    destruct (q_ph p <? tip2 (b :: b2 :: r2))%N eqn:El; [left|right; reflexivity].
+    destruct s0; [|reflexivity]. exfalso.
+    assert (Hd : would_broadcast2 p (b2 :: r2) = true) by (apply (would_down p b); [exact Ebf|congruence|lia]).
+    congruence.
 Qed.
 
 Theorem grun_good_is_run2 : forall p tr w, inv2 p w -> grun p w (map good tr) = run2 p w tr.
@@ -605,6 +634,203 @@ Proof.
     cbn [orb] in Er. right. apply (Hrn Hf Er).
 Qed.
 
+(** * Batches WITH reverts
+   index.Manager's batch is what chain.Manager.UpdatesSince(index, max) returns: reverts down to the best
+   chain, then applies, at most max EVENTS in all; one pass at the end.  What a revert does to a proof
+   the host already handed to the pool is in [gstep2]: the code knows nothing about it (the next pass
+   selects by the same predicate and hands over a new one, which the pool may refuse as conflicting), the
+   transaction itself stays valid while the block at the proof height stays.  Two more facts about the
+   environment are needed, both outside the host's control:
+     - a storage proof that is mined is one the host handed to the pool before, on this branch (only the
+       host holds the data);
+     - a reverted block does not hold the renewal (a renewal that is reorged out for good leaves the
+       contract open from that moment only: how much of the window is left is the reorg's choice — for the
+       pair of contracts see Liveness2R.v).
+   Then, as without reverts: at most B events between two good passes, the indexer at most L blocks
+   behind at each, B + L <= expiration height - proof height. *)
+Definition pact_of (e : gstep) : pact := match e with GMine _ a | GRevert a => a end.
+Definition good_pass (a : pact) : bool := match a with Pass true _ => true | _ => false end.
+Definition lag_of (a : pact) : N := match a with Pass _ l => l | NoPass => 0 end.
+
+Definition backed_ok (w : world2) (e : gstep) : bool :=
+  match e with
+  | GMine b _ => implb (d_proof b) (anyb (sent2 w))
+  | GRevert _ => match chain2 w with b :: _ => negb (d_renew b) | [] => true end
+  end.
+
+Fixpoint spacedr (p : params2) (B L k : N) (w : world2) (tr : list gstep) : Prop :=
+  match tr with
+  | [] => True
+  | e :: t =>
+      backed_ok w e = true /\
+      (if good_pass (pact_of e) then (lag_of (pact_of e) <= L)%N else (k + 1 < B)%N) /\
+      match gstep2 p w e with
+      | Some w' => spacedr p B L (if good_pass (pact_of e) then 0 else k + 1) w' t
+      | None => True
+      end
+  end.
+
+Fixpoint pbacked (ch : list blk2) (fl : list bool) : Prop :=
+  match ch with
+  | [] => True
+  | b :: r => (d_proof b = true -> anyb (tl fl) = true) /\ pbacked r (tl fl)
+  end.
+
+Definition rinvb (p : params2) (w : world2) (k : N) : Prop :=
+  (formed2 (chain2 w) = true -> resolved2 (chain2 w) = false ->
+   (q_ph p + k <= tip2 (chain2 w))%N -> anyb (sent2 w) = true) /\
+  expire2 (chain2 w) = false /\ pbacked (chain2 w) (sent2 w).
+
+Lemma pbacked_head : forall b r f g fl, pbacked (b :: r) (f :: fl) -> pbacked (b :: r) (g :: fl).
+Proof. intros b r f g fl H. exact H. Qed.
+
+Lemma attempt_in_time : forall p ch c lag,
+  q_held p = true -> row_matches2 p ch c ->
+  formed2 ch = true -> resolved2 ch = false -> (q_ph p <= tip2 ch)%N -> (tip2 ch + lag < q_eh p)%N ->
+  attempt p (Ok c) (tip2 ch) (Pass true lag) = true.
+Proof.
+  intros p ch c lag Hh Hm Hf Hr Hlo Hhi. cbn [attempt]. rewrite (broadcast_agrees2 p ch c Hm).
+  unfold would_broadcast2. rewrite Hf, Hr, Hh.
+  replace (q_ph p <=? tip2 ch)%N with true by lia. replace (tip2 ch <? q_eh p)%N with true by lia.
+  replace (tip2 ch + lag <? q_eh p)%N with true by lia. reflexivity.
+Qed.
+
+Lemma spacedr_step : forall p B L k w e w',
+  q_held p = true -> (B + L <= q_eh p - q_ph p)%N -> (q_ph p < q_eh p)%N -> (k < B)%N ->
+  invg p w -> rinvb p w k -> backed_ok w e = true ->
+  (if good_pass (pact_of e) then (lag_of (pact_of e) <= L)%N else (k + 1 < B)%N) ->
+  gstep2 p w e = Some w' ->
+  rinvb p w' (if good_pass (pact_of e) then 0 else k + 1).
+Proof.
+  intros p B L k w e w' Hh HBL Hw HkB Hi [Hb [Hnx Hpb]] Hbk Hsp Hstep.
+  pose proof (gstep2_inv p w _ w' Hi Hstep) as [Hok' [[c' [Hrow' Hm']] Hfs']].
+  destruct e as [b a|a]; cbn [pact_of] in *.
+  - (* mine *)
+    cbn [gstep2] in Hstep. destruct (env_ok2 p w b) eqn:Henv; cbn [negb] in Hstep; [|discriminate].
+    injection Hstep as <-. cbn [chain2 row2 sent2] in *. cbn [backed_ok] in Hbk.
+    assert (Hne : expire2 (b :: chain2 w) = false).
+    { rewrite expire2_cons, Hnx, orb_false_r. destruct (d_expire b) eqn:Ee; [|reflexivity]. exfalso.
+      pose proof Hok' as Hok0. cbn [chain_okg tl] in Hok0. destruct Hok0 as [_ [_ [_ [_ [Hexp _]]]]].
+      destruct (Hexp Ee) as [Hf [Hr [Hlt Hno]]]. rewrite tip2_cons in Hlt.
+      rewrite Hb in Hno; [discriminate Hno|exact Hf|exact Hr|clear - Hlt HBL HkB Hw; lia]. }
+    assert (Hpb' : forall f, pbacked (b :: chain2 w) (f :: sent2 w)).
+    { intro f. cbn [pbacked tl]. split; [|exact Hpb]. intro Hp. rewrite Hp in Hbk. cbn [implb] in Hbk. exact Hbk. }
+    assert (Hkeep : formed2 (b :: chain2 w) = true -> resolved2 (b :: chain2 w) = false ->
+                    (q_ph p + k <= tip2 (chain2 w))%N -> anyb (sent2 w) = true).
+    { intros Hf Hr Hle. apply Hb; [|rewrite resolved2_cons in Hr; destruct (resolved2 (chain2 w)); [rewrite orb_true_r in Hr; discriminate Hr|reflexivity]|exact Hle].
+      eapply formed_before; [exact Hok'|exact Hf|clear - Hle; lia]. }
+    rewrite Hrow'. clear Hok' Hfs' Hi Henv Hb Hpb.
+    destruct (good_pass a) eqn:Eg.
+    + destruct a as [|ok lag]; [discriminate Eg|]. destruct ok; [|discriminate Eg]. cbn [lag_of] in Hsp.
+      split; [|split; [exact Hne|apply Hpb']]. cbn [chain2 sent2]. rewrite tip2_cons, N.add_0_r. intros Hf Hr Hle.
+      unfold anyb. cbn [existsb]. fold (anyb (sent2 w)).
+      destruct (q_ph p + k <=? tip2 (chain2 w))%N eqn:Eold.
+      * rewrite (Hkeep Hf Hr) by (clear - Eold; lia). apply orb_true_r.
+      * rewrite <- (tip2_cons b (chain2 w)).
+        rewrite (attempt_in_time p _ c' lag Hh Hm' Hf Hr); [reflexivity| |]; rewrite tip2_cons; clear - Hle Eold HkB HBL Hsp Hw; lia.
+    + split; [|split; [exact Hne|apply Hpb']]. cbn [chain2 sent2]. rewrite tip2_cons. intros Hf Hr Hle.
+      unfold anyb. cbn [existsb]. fold (anyb (sent2 w)). rewrite (Hkeep Hf Hr) by (clear - Hle; lia). apply orb_true_r.
+  - (* revert *)
+    cbn [gstep2] in Hstep. destruct (chain2 w) as [|b rest] eqn:Ech; [discriminate|].
+    destruct (sent2 w) as [|s0 srest] eqn:Es; [discriminate|].
+    destruct (is_form b) eqn:Ebf; [discriminate|]. injection Hstep as <-. cbn [chain2 row2 sent2] in *.
+    cbn [backed_ok] in Hbk. try rewrite Ech in Hbk. try rewrite Ech in Hb. try rewrite Ech in Hnx. try rewrite Ech in Hpb.
+    try rewrite Es in Hb. try rewrite Es in Hpb. apply negb_true_iff in Hbk.
+    rewrite expire2_cons in Hnx. apply orb_false_iff in Hnx. destruct Hnx as [Hxb Hnx'].
+    cbn [pbacked tl] in Hpb. destruct Hpb as [Hpb0 Hpb'].
+    rewrite tip2_cons in *.
+    destruct rest as [|b2 r2].
+    { split; [intro Hf; discriminate Hf|]. split; [reflexivity|exact I]. }
+    destruct srest as [|s t].
+    { exfalso. destruct Hi as [_ [_ Hfs]]. rewrite Ech, Es in Hfs. cbn [flags_sound tl] in Hfs.
+      destruct Hfs as [_ [[f [fr [Hx _]]] _]]. discriminate Hx. }
+    unfold rinvb. cbn [chain2 row2 sent2].
+    split; [|split; [exact Hnx'|exact Hpb']].
+    intros Hf Hr Hle. rewrite Hrow'. clear Hok' Hfs' Hi Hpb' Hrow'.
+    unfold anyb. cbn [existsb]. fold (anyb t).
+    destruct (d_proof b) eqn:Ep.
+    { (* the reverted block held the proof: it was mined while a flag existed below *)
+      specialize (Hpb0 eq_refl). unfold anyb in Hpb0. cbn [existsb] in Hpb0. fold (anyb t) in Hpb0.
+      apply orb_true_iff in Hpb0. destruct Hpb0 as [H|H]; [subst s; reflexivity|rewrite H; apply orb_true_r]. }
+    assert (Hf0 : formed2 (b :: b2 :: r2) = true) by (rewrite formed2_cons, Ebf, Hf; reflexivity).
+    assert (Hr0 : resolved2 (b :: b2 :: r2) = false) by (rewrite resolved2_cons, Ep, Hbk, Hxb, Hr; reflexivity).
+    assert (Hcarry : (q_ph p + k <= tip2 (b2 :: r2) + 1)%N -> (q_ph p < tip2 (b2 :: r2) + 1)%N ->
+                     s || s0 && (q_ph p <? tip2 (b2 :: r2) + 1)%N || attempt p (Ok c') (tip2 (b2 :: r2)) a || anyb t = true).
+    { intros H1 H2. pose proof (Hb Hf0 Hr0 H1) as Hb0. unfold anyb in Hb0. cbn [existsb] in Hb0. fold (anyb t) in Hb0.
+      replace (q_ph p <? tip2 (b2 :: r2) + 1)%N with true by (clear - H2; lia). rewrite andb_true_r.
+      destruct s0, s; cbn [orb] in *; try reflexivity. rewrite Hb0. apply orb_true_r. }
+    destruct (good_pass a) eqn:Eg.
+    + destruct a as [|ok lag]; [discriminate Eg|]. destruct ok; [|discriminate Eg]. cbn [lag_of] in Hsp.
+      rewrite N.add_0_r in Hle.
+      destruct (q_ph p + k <=? tip2 (b2 :: r2) + 1)%N eqn:Eold.
+      * apply Hcarry; clear - Eold Hle; lia.
+      * rewrite (attempt_in_time p _ c' lag Hh Hm' Hf Hr Hle) by (clear - Eold HkB HBL Hsp Hw; lia).
+        rewrite orb_true_r. reflexivity.
+    + apply Hcarry; clear - Hle; lia.
+Qed.
+
+Lemma spacedr_run : forall p B L tr k w w',
+  q_held p = true -> (B + L <= q_eh p - q_ph p)%N -> (q_ph p < q_eh p)%N -> (k < B)%N ->
+  invg p w -> rinvb p w k -> spacedr p B L k w tr -> grun p w tr = Some w' ->
+  exists k', (k' < B)%N /\ rinvb p w' k'.
+Proof.
+  intros p B L tr. induction tr as [|e t IH]; intros k w w' Hh HBL Hw HkB Hi Hb Hsp Hrun.
+  - injection Hrun as <-. exists k. split; assumption.
+  - cbn [grun] in Hrun. destruct (gstep2 p w e) as [w1|] eqn:Est; [|discriminate].
+    cbn [spacedr] in Hsp. rewrite Est in Hsp. destruct Hsp as [Hbk [Hk Hsp]].
+    pose proof (gstep2_inv p w e w1 Hi Est) as Hi1.
+    pose proof (spacedr_step p B L k w e w1 Hh HBL Hw HkB Hi Hb Hbk Hk Est) as Hs.
+    apply (IH (if good_pass (pact_of e) then 0%N else (k + 1)%N) w1 w'); auto. clear - Hk HkB. destruct (good_pass (pact_of e)); lia.
+Qed.
+
+Theorem g_batches_with_reverts_in_time : forall p B L tr w,
+  q_held p = true -> (q_ph p < q_eh p)%N -> (0 < B)%N -> (B + L <= q_eh p - q_ph p)%N ->
+  spacedr p B L 0 (init_world2 p) tr -> grun p (init_world2 p) tr = Some w ->
+  exists c, row2 w = Ok c /\ c2_contract_status c <> Failed2 /\
+            (formed2 (chain2 w) = true -> (q_eh p <= tip2 (chain2 w))%N ->
+             c2_contract_status c = Successful2 \/ c2_contract_status c = Renewed2).
+Proof.
+  intros p B L tr w Hh Hw HB HBL Hsp Hrun.
+  assert (Hb0 : rinvb p (init_world2 p) 0).
+  { split; [|split]; cbn; [discriminate|reflexivity|exact I]. }
+  destruct (spacedr_run p B L tr 0%N _ w Hh HBL Hw HB (invg_init p) Hb0 Hsp Hrun) as [k' [Hk' [Hb [Hnx _]]]].
+  destruct (grun_inv p tr _ w (invg_init p) Hrun) as [Hok [[c [Hrow Hm]] Hfs]].
+  exists c. split; [exact Hrow|].
+  assert (Hlate : formed2 (chain2 w) = true -> (q_eh p <= tip2 (chain2 w))%N -> resolved2 (chain2 w) = false -> False).
+  { intros Hf Ht Hr. assert (Hany : anyb (sent2 w) = true) by (apply Hb; try assumption; lia).
+    pose proof (flag_resolves p _ _ Hw Hok Hfs Hany Ht) as Hres. unfold resolved2 in Hr.
+    destruct (proof2 (chain2 w)), (renew2 (chain2 w)); cbn in *; congruence. }
+  split.
+  - intro Hst. destruct (g_failed_no_attempt p tr w c Hrun Hrow Hst) as [_ Hx]. congruence.
+  - intros Hf Ht. destruct (resolved2 (chain2 w)) eqn:Er; [|exfalso; apply (Hlate Hf Ht eq_refl)].
+    destruct Hm as [_ [_ [_ [_ [_ [_ [_ [_ [Hpr [Hrn _]]]]]]]]]].
+    unfold resolved2 in Er. rewrite Hnx, orb_false_r in Er.
+    destruct (proof2 (chain2 w)) eqn:Ep; [left; apply (Hpr Hf eq_refl)|].
+    cbn [orb] in Er. right. apply (Hrn Hf Er).
+Qed.
+
+(* the hypothesis of the theorem is decidable along a concrete schedule *)
+Fixpoint spacedrb (p : params2) (B L k : N) (w : world2) (tr : list gstep) : bool :=
+  match tr with
+  | [] => true
+  | e :: t =>
+      backed_ok w e &&
+      (if good_pass (pact_of e) then (lag_of (pact_of e) <=? L)%N else (k + 1 <? B)%N) &&
+      match gstep2 p w e with
+      | Some w' => spacedrb p B L (if good_pass (pact_of e) then 0 else k + 1) w' t
+      | None => true
+      end
+  end.
+
+Lemma spacedrb_sound : forall p B L tr k w, spacedrb p B L k w tr = true -> spacedr p B L k w tr.
+Proof.
+  intros p B L tr. induction tr as [|e t IH]; intros k w H; [exact I|].
+  cbn [spacedrb spacedr] in *. apply andb_true_iff in H. destruct H as [H H3].
+  apply andb_true_iff in H. destruct H as [H1 H2]. split; [exact H1|]. split.
+  - destruct (good_pass (pact_of e)); lia.
+  - destruct (gstep2 p w e); [apply IH; exact H3|exact I].
+Qed.
+
 (** * Witnesses (window [3,5), p2_demo of Liveness2.v: the host holds the data, an expiration means failed) *)
 Definition gp (a : pact) (b : blk2) : gstep := GMine b a.
 Definition ok0 : pact := Pass true 0.
@@ -622,6 +848,13 @@ Definition g_window_skipped_witness : list gstep :=
 (* the pass at tip 4 runs while the best chain is already at 5: too late for the block at 5 *)
 Definition g_lagging_pass_witness : list gstep :=
   [gp ok0 d_formed; gp ok0 d0; gp NoPass d0; gp (Pass true 1) d0; gp ok0 d0; gp ok0 d_expired].
+(* window [3,7): batches of two events, a reorg of depth 1 inside the window, the indexer one block behind *)
+Definition p_wide : params2 :=
+  {| q_ph := 3; q_eh := 7; q_neg := 0; q_rev0 := 2; q_rb := 18; q_benefit := true; q_held := true |}.
+Definition g_batches_with_reorg : list gstep :=
+  [gp ok0 d_formed; gp NoPass d0; gp (Pass true 1) d0; gp NoPass d0; GRevert (Pass true 1); gp NoPass d0; gp ok0 d_proved;
+   gp NoPass d0; gp ok0 d0].
+
 Definition status_after (p : params2) (tr : list gstep) : option st2 :=
   match grun p (init_world2 p) tr with
   | Some w => match row2 w with Ok c => Some (c2_contract_status c) | _ => None end
